@@ -29,6 +29,54 @@ def kindname(cfg):
     return "FQ" if cfg.mc is None else "FQ%d" % len(cfg.mc)
 
 
+def fqform_case(cr, co, xm, partner):
+    """[(op, (expected, observed))] mismatches for the element xm built from FQ-object coefficients"""
+    from .. import lib as _lib
+
+    out = []
+    p = cr.p
+    els = {}
+    for fam, cfg in (("ref", cr), ("opt", co)):
+        FQc = _lib.fq_class(fam, p)
+        try:
+            els[fam] = cfg.cls([FQc(c) for c in xm])
+        except Exception as e:  # noqa: BLE001
+            els[fam] = ("raise", type(e).__name__)
+    if isinstance(els["ref"], tuple) or isinstance(els["opt"], tuple):
+        if isinstance(els["ref"], tuple) != isinstance(els["opt"], tuple):
+            out.append(("construct", (els["ref"] if isinstance(els["ref"], tuple) else "element",
+                                      els["opt"] if isinstance(els["opt"], tuple) else "element")))
+        return out
+    exp_s = ("ok", fl.sgn0_rfc(co, xm))
+    got_s = fl.run_op(co, "sgn0", els["opt"])
+    if got_s != exp_s:
+        out.append(("sgn0", (exp_s, got_s)))
+    for op in ("neg", "inv"):
+        exp = fl.model_op(cr, op, xm)
+        for fam, cfg in (("ref", cr), ("opt", co)):
+            got = fl.run_op(cfg, op, els[fam])
+            if got != exp:
+                out.append(("%s:%s" % (op, fam), (exp, got)))
+    if partner is not None:
+        exp = fl.model_op(cr, "mul", xm, partner)
+        for fam, cfg in (("ref", cr), ("opt", co)):
+            for (l, rr) in ((els[fam], cfg.lib(partner)), (cfg.lib(partner), els[fam])):
+                got = fl.run_op(cfg, "mul", l, rr)
+                if got != exp:
+                    out.append(("mul:%s" % fam, (exp, got)))
+    for fam, cfg in (("ref", cr), ("opt", co)):
+        got = fl.run_op(cfg, "eq", els[fam], cfg.lib(xm))
+        if got != ("ok", True):
+            out.append(("eq:%s" % fam, (("ok", True), got)))
+    return out
+
+
+def replay_fqform(a):
+    cr, co = fl.cfg_of(a, "ref"), fl.cfg_of(a, "opt")
+    bad = fqform_case(cr, co, tuple(a["x"]), tuple(a["y"]) if a.get("y") else None)
+    return None if not bad else {"mismatches": [(op, e, g) for op, (e, g) in bad]}
+
+
 def task_tables(a, env):
     cr, co = fl.cfg_of(a, "ref"), fl.cfg_of(a, "opt")
     p = cr.p
@@ -85,6 +133,17 @@ def task_tables(a, env):
             r.viol("C14:%s:sgn0" % kind, ME + ":replay_table",
                    {"p": p, "mc": a.get("mc"), "op": "sgn0", "args": {"x": fl.el_json(cr, xm)}}, exp, got)
     r.dn += len(A)
+    # elements constructed from same-family FQ objects instead of ints (a documented constructor
+    # form): same values, same sgn0, same results in both families
+    if cr.mc is not None:
+        partner = next((b for b in B if not F.is_zero(b)), None)
+        for xm in A[:600]:
+            for (op, bad_out) in fqform_case(cr, co, xm, partner):
+                r.viol("C14:%s:fq-coefficient-form:%s" % (kind, op), ME + ":replay_fqform",
+                       {"p": p, "mc": a.get("mc"), "x": list(xm), "y": list(partner) if partner else None},
+                       bad_out[0], bad_out[1], note=op)
+            r.ev += 6
+            r.transitions += 6
     ks = fl.INT_OPERANDS_TINY(p)
     int_ops = ["add", "sub", "mul", "div", "radd", "rsub", "rmul", "rdiv", "eq", "ne"]
     if cr.mc is None:
